@@ -2,7 +2,7 @@
 EXTENDS H_Exec, TLC, Json, IOUtils
 TraceLog == ndJsonDeserialize(IOEnv.TRACE)
 VARIABLE l
-tvars == <<st, arg, tok, cst, starts, inYield, l>>
+tvars == <<st, arg, tok, cst, starts, inYield, mg, l>>
 Ev == TraceLog[l]
 More == l <= Len(TraceLog)
 Consume == l' = l + 1
@@ -10,18 +10,19 @@ Is(e) == More /\ Ev.e = e /\ Consume
 SeqToSet(s) == {s[i] : i \in 1..Len(s)}
 TInit == HInit /\ l = 1
 TReset == Is("Reset") /\ st' = [u \in Units |-> "none"] /\ arg' = [u \in Units |-> 0] /\ tok' = [u \in Units |-> 0]
-          /\ cst' = [u \in Units |-> 0] /\ starts' = [u \in Units |-> 0] /\ inYield' = [u \in Units |-> FALSE]
+          /\ cst' = [u \in Units |-> 0] /\ starts' = [u \in Units |-> 0] /\ inYield' = [u \in Units |-> FALSE] /\ mg' = [u \in Units |-> Mg0]
 TNext ==
     \/ TReset
     \/ (More /\ UNCHANGED l /\ \E u \in Units : Honour(u))
     \/ (Is("Exec") /\ NoOp)
-    \/ (Is("Create") /\ Create(Ev.by, Ev.u, Ev.arg))
+    \/ (Is("Note") /\ NoOp)
+    \/ (Is("Create") /\ Create(Ev.by, Ev.u, Ev.arg, Ev.pool, IF "mig" \in DOMAIN Ev THEN Ev.mig = 1 ELSE TRUE))
     \/ (Is("CreateRet") /\ ByOK(Ev.by) /\ NoOp)
     \/ (Is("Start") /\ Start(Ev.u, Ev.arg, Ev.n))
     \/ (Is("Finish") /\ Finish(Ev.u))
     \/ (Is("Exit") /\ Finish(Ev.u))
     \/ (Is("Yield") /\ Yield(Ev.u))
-    \/ (Is("Back") /\ Back(Ev.u))
+    \/ (Is("Back") /\ Back(Ev.u, IF "pool" \in DOMAIN Ev THEN Ev.pool ELSE NoPool))
     \/ (Is("Suspend") /\ Suspend(Ev.u))
     \/ (Is("ResumeCall") /\ Resume(Ev.by, Ev.u))
     \/ (Is("ResumeRet") /\ ByOK(Ev.by) /\ NoOp)
@@ -32,8 +33,12 @@ TNext ==
     \/ (Is("JoinRet") /\ JoinRet(Ev.by, Ev.u, Ev.st, Ev.tok))
     \/ (Is("FreeCall") /\ ByOK(Ev.by) /\ NoOp)
     \/ (Is("FreeRet") /\ FreeRet(Ev.by, Ev.u, Ev.null, Ev.tok))
-    \/ (Is("Revive") /\ Revive(Ev.by, Ev.u, Ev.arg))
+    \/ (Is("Revive") /\ Revive(Ev.by, Ev.u, Ev.arg, Ev.pool))
     \/ (Is("ReviveRet") /\ ByOK(Ev.by) /\ NoOp)
+    \/ (Is("MigReq") /\ MigReq(Ev.by, Ev.u, Ev.tgt))
+    \/ (Is("MigRet") /\ MigRet(Ev.by, Ev.u, Ev.ret))
+    \/ (Is("MigCb") /\ MigCb(Ev.u))
+    \/ (Is("MigCount") /\ MigCount(Ev.u, Ev.n))
     \/ (Is("XJoinCall") /\ NoOp)
     \/ (Is("XJoinRet") /\ Ev.term = 1 /\ AllTerminated(SeqToSet(Ev.us)) /\ NoOp)
     \* the blocked counter is never negative; after all streams were joined no
